@@ -10,7 +10,7 @@ ENTRIES = []
 RULE = ("1-4 datasets of random kind (S, Q[S-1], F_K, DCS), per-dataset Qmin/Qmax (60%), Y scale/offset (55%), Q offset (50%, "
         "multiples and non-multiples of 0.01, positive and negative), global Qmin/Qmax window (50% each); after every add_dataset both "
         "storage arrays are compared with an independent recomputation of the statement; non-trivial = a Q offset or a global window present")
-DIST = ["nd", "window", "offset"]
+DIST = ["nd", "window", "offset", "shared_info", "reject_at"]
 SHRINK = None
 
 
@@ -24,18 +24,52 @@ def gen(rng, i, tier):
         for d in ds[:2]:
             d["X"] = {"Offset": float(rng.choice([-0.3, -1.5, -0.25]))}
             d.pop("Qmin", None)
+    shared = bool(nd >= 2 and rng.random() < 0.2)
+    if shared:
+        # one description dictionary re-used for every dataset (a loop over banks that only replaces info["data"]): all datasets
+        # carry the options of the first; mostly without per-dataset Qmin/Qmax
+        opts = {k: v for k, v in ds[0].items() if k not in ("x", "y", "dy", "unsorted")}
+        if rng.random() < 0.7:
+            opts.pop("Qmin", None), opts.pop("Qmax", None)
+        for k, d in enumerate(ds):
+            ds[k] = {kk: vv for kk, vv in d.items() if kk in ("x", "y", "dy", "unsorted")} | {kk: (dict(vv) if isinstance(vv, dict) else vv) for kk, vv in opts.items()}
+    # a dataset whose kind is not one of the four choices is rejected with ValueError; the caller carries on with the same object
+    reject_at = int(rng.integers(0, nd + 1)) if rng.random() < 0.2 else None
     return dict(datasets=ds, qmin=qmin, qmax=qmax, bcoh=float(rng.uniform(1, 5)), btot=float(rng.uniform(1, 5)), nd=nd,
-                window=(qmin is not None, qmax is not None), offset=any("X" in d for d in ds))
+                window=(qmin is not None, qmax is not None), offset=any("X" in d for d in ds), shared_info=shared, reject_at=reject_at)
 
 
 def build(case, order=None):
     s = StoG(**{"<b_coh>^2": case["bcoh"], "<b_tot^2>": case["btot"]})
     s.qmin, s.qmax = case["qmin"], case["qmax"]
     steps = []
-    for k in (order if order is not None else range(len(case["datasets"]))):
-        s.add_dataset(sc.to_info(case["datasets"][k]))
+    seq = list(order if order is not None else range(len(case["datasets"])))
+    shared = None
+    for pos, k in enumerate(seq):
+        if case.get("reject_at") == pos:
+            reject(s, case["datasets"][k])
+        if case.get("shared_info"):
+            if shared is None:
+                shared = sc.to_info(case["datasets"][k])
+            else:
+                shared["data"] = sc.to_info(case["datasets"][k])["data"]
+            s.add_dataset(shared)
+        else:
+            s.add_dataset(sc.to_info(case["datasets"][k]))
         steps.append((s.reciprocal_individuals.copy(), s.sq_individuals.copy()))
+    if case.get("reject_at") == len(seq):
+        reject(s, case["datasets"][seq[-1]])
     return s, steps
+
+
+def reject(s, d):
+    """an add_dataset call that must fail (unknown ReciprocalFunction) and leave the object as it was"""
+    bad = sc.to_info(d)
+    bad["ReciprocalFunction"] = "F(Q)"
+    try:
+        s.add_dataset(bad)
+    except ValueError:
+        pass
 
 
 def evaluate(case):
@@ -68,6 +102,8 @@ def evaluate(case):
         if exceeds(np.abs(got_r[0] - rec[0]).max(initial=0.0), 5.0000001e-3):
             fails.append(f"after dataset {k}: stored Q differs from offset Q by more than the 0.01-lattice rounding")
             break
+    if s.reciprocal_individuals.shape != s.sq_individuals.shape or not np.array_equal(s.reciprocal_individuals[0], s.sq_individuals[0]):
+        fails.append("the two storage arrays are not aligned at the end (a rejected dataset left one of them changed)")
     lo, hi = case["qmin"], case["qmax"]
     x = s.reciprocal_individuals[0]
     if lo is not None and (x < lo - 1e-9).any():
